@@ -101,6 +101,36 @@ pub struct DocProp {
 
 pub fn no_tweak(_: &mut GenCfg, _: &mut Rng) {}
 
+/// corpus/<property>.txt: document sequences replayed first on every run.  Blocks are separated
+/// by a line `---`; in a block, `# ...` is a note, `@signature X` names the known finding the
+/// block is the witness of (known_findings.json), every other non-empty line is one document.
+pub fn load_corpus(verif: &str, prop: &str) -> Vec<(Vec<String>, Option<String>, String)> {
+    let text = std::fs::read_to_string(format!("{}/corpus/{}.txt", verif, prop)).unwrap_or_default();
+    let mut out = vec![];
+    for block in text.split("\n---") {
+        let mut docs = vec![];
+        let mut sig = None;
+        let mut note = String::new();
+        for line in block.lines() {
+            let l = line.trim_end();
+            if l.is_empty() {
+                continue;
+            }
+            if let Some(n) = l.strip_prefix("# ") {
+                note.push_str(n);
+            } else if let Some(x) = l.strip_prefix("@signature ") {
+                sig = Some(x.trim().to_string());
+            } else {
+                docs.push(l.to_string());
+            }
+        }
+        if !docs.is_empty() {
+            out.push((docs, sig, note));
+        }
+    }
+    out
+}
+
 pub fn run_docprop(ctx: &mut Ctx, p: DocProp) {
     let per = if ctx.thorough { 1200 } else { 300 };
     let mut sh = Shards::new(&ctx.out, "docs", DOC_IMPORTS, "doccase", p.evals, "show_case", per);
@@ -112,6 +142,20 @@ pub fn run_docprop(ctx: &mut Ctx, p: DocProp) {
     let mut rng = ctx.rng.fork();
     let mut fails: Vec<J> = vec![];
 
+    // ---- the corpus first: fixed byte documents (no DOM: the DOM-based oracles do not apply)
+    let corpus = load_corpus(&ctx.verif, &ctx.prop);
+    for (docs, sig, note) in &corpus {
+        let bytes: Vec<Vec<u8>> = docs.iter().map(|d| d.clone().into_bytes()).collect();
+        let opts = (p.opts)(&mut rng);
+        let mut extra = vec![("kind", json::s("corpus")), ("note", json::s(note))];
+        if let Some(sg) = sig {
+            extra.push(("signature", json::s(sg)));
+        }
+        let b = build_case(None, &bytes, &cfg, &opts, &mut sh.intern, extra);
+        hist.add("corpus");
+        sh.push(b.term, b.descr);
+        evaluations += 1;
+    }
     let mut cases: Vec<(Vec<Vec<Node>>, &'static str)> = vec![];
     let mut exh_note = String::new();
     if p.exhaustive {
